@@ -34,7 +34,13 @@ RULE = ("2-3 participants run the real ParallelEtherCat.run() enter / hold / "
         "(sampled) participants create, hold and remove FMMULocks twice "
         "each, every os / lockf call a scheduling point, random draws from "
         "six addresses spread over three bitmap bytes: windows held at the "
-        "same time are distinct. "
+        "same time are distinct. Restart leg: sampled schedules of 2-3 "
+        "participants of which one runs its ParallelEtherCat object a second "
+        "time, half of them shaped by a probe run so that it was the last "
+        "to leave before. Window leg (no scheduler): 2-3 participants of "
+        "one address map with neighbouring ranges draw 1..2100 windows "
+        "each, one leaves, a third joins: windows of different live "
+        "participants never overlap. "
         "a case = one "
         "schedule; non-trivial = the participants' operations really "
         "interleave (>= 1 switch while both were enabled)")
